@@ -159,7 +159,14 @@ pub trait Read {
     {
         let mut buf = [0; size_of::<u64>()];
         self.read_exact(&mut buf)?;
-        Ok(F::from_canonical_u64(u64::from_le_bytes(buf)))
+        let n = u64::from_le_bytes(buf);
+        // Only canonical encodings are ever written; reject anything else instead of handing a
+        // non-canonical value to `from_canonical_u64` (a debug assertion, i.e. a panic on
+        // untrusted input in debug builds and a silently non-canonical element in release).
+        if n >= F::ORDER {
+            return Err(IoError);
+        }
+        Ok(F::from_canonical_u64(n))
     }
 
     /// Reads a vector of elements from the field `F` from `self`.
@@ -261,7 +268,12 @@ pub trait Read {
     {
         let mut buf = vec![0; H::HASH_SIZE];
         self.read_exact(&mut buf)?;
-        Ok(H::Hash::from_bytes(&buf))
+        let hash = H::Hash::from_bytes(&buf);
+        // Reject non-canonical encodings (e.g. a field limb >= the field order).
+        if hash.to_bytes() != buf {
+            return Err(IoError);
+        }
+        Ok(hash)
     }
 
     /// Reads a HashOutTarget value from `self`.
